@@ -973,6 +973,19 @@ def s_wrapping_shift(left):
     return f
 
 
+def s_leading_zeros(ip, frame, bb, st, callee, args, dty):
+    # leading_zeros of an unsigned value: a symbol defined from its operand; a comparison of it with a constant refines the
+    # operand (Interp.refine_lz), so `if x.leading_zeros() < 4 { return Err }` leaves x < 2^(w-4)
+    from .interp import Unsupported
+    x = args[0]
+    if not isinstance(x, VInt) or x.sg:
+        raise Unsupported("leading_zeros of %r" % (x,))
+    lo, hi = st.interval(x.lin)
+    rlo = x.w - hi.bit_length() if hi is not None and hi >= 0 else 0
+    rhi = x.w - lo.bit_length() if lo is not None and lo >= 0 else x.w
+    return [(st, ip.fresh_int(st, 32, False, "leading_zeros", ("lz", x.lin, x.w), max(rlo, 0), min(rhi, x.w)))]
+
+
 def s_checked(opname):
     def f(ip, frame, bb, st, callee, args, dty):
         from .interp import Unsupported
@@ -1569,8 +1582,35 @@ def s_swap(ip, frame, bb, st, callee, args, dty):
 
 # ====================================================================== crc (crc-3.x: all total)
 
+def crc_log_of(ip, obj):
+    """what has been fed to this digest value since it was created: tuple of per-update tuples (byte constants, ('sym', Lin) or '?');
+    None if its history is unknown.  The history belongs to the value, so it follows the digest through helpers and assignments."""
+    ent = getattr(ip, "crc_log", {}).get(id(obj))
+    return ent[1] if ent is not None and ent[0] is obj else None
+
+
+def _crc_bytes(ip, st, sl):
+    from .interp import Unsupported
+    n = st.const_of(sl.n)
+    if n is None or n > 64:
+        return ("?",)
+    out = []
+    for i in range(n):
+        try:
+            v = slice_elem(ip, st, sl, Lin.const(i))
+        except Unsupported:
+            return ("?",)
+        c = st.const_of(v.lin) if isinstance(v, VInt) else None
+        out.append(c if c is not None else ("sym", v.lin if isinstance(v, VInt) else None))
+    return tuple(out)
+
+
 def s_crc_digest(ip, frame, bb, st, callee, args, dty):
-    return [(st, VOpq(dty, "crc-digest-fresh"))]
+    new = VOpq(dty, "crc-digest-fresh")
+    if getattr(ip, "crc_log", None) is None:
+        ip.crc_log = {}
+    ip.crc_log[id(new)] = (new, ())
+    return [(st, new)]
 
 
 def s_crc_update(ip, frame, bb, st, callee, args, dty):
@@ -1580,13 +1620,31 @@ def s_crc_update(ip, frame, bb, st, callee, args, dty):
     r = args[0]
     if isinstance(r, VRef):
         cur = ip.read_raw(st, r.root, r.steps)
-        if isinstance(cur, VOpq) and cur.tag in ("crc-digest-fresh",):
-            ip.write_raw(st, r.root, r.steps, VOpq(cur.ty, "crc-digest-fed"))
+        if isinstance(cur, VOpq) and cur.tag in ("crc-digest-fresh", "crc-digest-fed"):
+            new = VOpq(cur.ty, "crc-digest-fed")
+            ip.write_raw(st, r.root, r.steps, new)
+            lg = crc_log_of(ip, cur)
+            if lg is not None:
+                ip.crc_log[id(new)] = (new, lg + (_crc_bytes(ip, st, sl),))
+            once = getattr(ip, "crc_once", None)
+            if once is None:
+                once = ip.crc_once = {}
+            if cur.tag == "crc-digest-fresh":
+                # a fresh digest fed exactly one slice: finalize() of it is Crc::checksum of that slice
+                once[id(new)] = (new, sl)
     return [(st, UNIT)]
 
 
 def s_crc_finalize(ip, frame, bb, st, callee, args, dty):
-    v = ip.fresh_int(st, 16, False, ("crc_finalize",))
+    obj = args[0]
+    if isinstance(obj, VRef):
+        obj = ip.read_raw(st, obj.root, obj.steps)
+    ent = getattr(ip, "crc_once", {}).get(id(obj))
+    if ent is not None and ent[0] is obj:
+        sl = ent[1]
+        v = ip.fresh_int(st, 16, False, ("crc_checksum", sl.root, sl.steps, sl.start, sl.n))
+    else:
+        v = ip.fresh_int(st, 16, False, ("crc_finalize",))
     for h in ip.on_crc:
         h(ip, frame, bb, st, "finalize", args[0], v)
     return [(st, v)]
@@ -1814,6 +1872,7 @@ def install(ip):
         E["core::num::<impl %s>::to_le_bytes" % t] = s_to_le_bytes
         E["core::num::<impl %s>::swap_bytes" % t] = s_swap_bytes
         E["core::num::<impl %s>::checked_shl" % t] = s_checked_shl
+        E["core::num::<impl %s>::leading_zeros" % t] = s_leading_zeros
         E["core::num::<impl %s>::wrapping_shl" % t] = s_wrapping_shift(True)
         E["core::num::<impl %s>::wrapping_shr" % t] = s_wrapping_shift(False)
         E["core::num::<impl %s>::checked_sub" % t] = s_checked("sub")
